@@ -277,6 +277,8 @@ def execute(scenario, keep_trace=False):
     def acquired(b, ops, what):
         """Outpoints were handed to build b (selection returned / its own reservation returned)."""
         bid = b.bid if b is not None else -1
+        if run.violations:
+            return                  # the first violation is the verdict; what follows it is noise
         for op in ops:
             if op in held:
                 holder = held[op]
@@ -287,7 +289,7 @@ def execute(scenario, keep_trace=False):
                               f'freed meanwhile by: {foreign_freed.get(op, "nobody")}',
                               holder='same_build' if holder == bid else (hb.state if hb else 'unknown'),
                               via=kind_of(bid), holder_via=kind_of(holder), freed_by=foreign_freed.get(op, 'nobody'))
-                continue
+                return
             if op in was_released:
                 run.probes['reselected_after_release'] += 1
             acquire(op, bid)
@@ -333,6 +335,8 @@ def execute(scenario, keep_trace=False):
     async def visible_check(tag):
         """An outpoint held throughout a get_utxos() call must not be in its result."""
         for i, acct in enumerate(sim.accounts):
+            if run.violations:
+                return True
             snap = {op: hold_seq[op] for op in held}
             got = {t.id for t in await acct.get_utxos(no_tx=True, no_channel_info=True)}
             bad = sorted(op for op in got if op in held and snap.get(op) == hold_seq[op])
